@@ -3,67 +3,62 @@ use crate::{BoundingRect, Line, PointF, Polygon, RotatedRect, Vec2};
 /// Return the sorted subset of points from `poly` that form a convex hull
 /// containing `poly`.
 pub fn convex_hull(poly: &[PointF]) -> Vec<PointF> {
-    // See https://en.wikipedia.org/wiki/Graham_scan
+    // This uses Andrew's monotone chain algorithm. See
+    // https://en.wikibooks.org/wiki/Algorithm_Implementation/Geometry/Convex_hull/Monotone_chain.
+    //
+    // Points are sorted by their coordinates rather than by angle around a
+    // pivot. Coordinate comparisons are exact, whereas angles computed in
+    // floating point can order collinear points inconsistently, which causes
+    // a scan to discard points that belong on the hull.
+
+    // Sort points so that the lowest and left-most point comes first, assuming
+    // a coordinate system where Y increases going down.
+    //
+    // Adding zero converts -0 to +0 so that `total_cmp` treats them as equal.
+    let mut points = poly.to_vec();
+    points.sort_by(|a, b| {
+        (b.y + 0.)
+            .total_cmp(&(a.y + 0.))
+            .then((a.x + 0.).total_cmp(&(b.x + 0.)))
+    });
+    points.dedup();
+
+    if points.len() < 3 {
+        return points;
+    }
+
+    // Visit points in `iter` and append to `hull` the sequence that can be
+    // followed without making any clockwise turns. Entries of `hull` before
+    // `start` are left untouched.
+    fn scan<'a>(hull: &mut Vec<PointF>, start: usize, iter: impl Iterator<Item = &'a PointF>) {
+        for &p in iter {
+            while hull.len() >= start + 2 {
+                let [prev2, prev] = [hull[hull.len() - 2], hull[hull.len() - 1]];
+                let ac = prev2.vec_to(p);
+                let bc = prev.vec_to(p);
+                let turn_dir = ac.cross_product_norm(bc);
+                if turn_dir > 0. {
+                    // Last three points form a counter-clockwise turn.
+                    break;
+                }
+                hull.pop();
+            }
+            hull.push(p);
+        }
+    }
 
     let mut hull = Vec::new();
 
-    // Find lowest and left-most point, assuming a coordinate system where Y
-    // increases going down.
-    let min_point = match poly.iter().min_by(|a, b| {
-        if a.y != b.y {
-            (-a.y).total_cmp(&-b.y)
-        } else {
-            a.x.total_cmp(&b.x)
-        }
-    }) {
-        Some(p) => *p,
-        None => {
-            return hull;
-        }
-    };
+    // Chain from the lowest to the highest point.
+    scan(&mut hull, 0, points.iter());
+    // The last point is the start of the next chain.
+    hull.pop();
 
-    // Compute cosine of angle between the vector `p - min_point` and the X axis.
-    let angle = |p: PointF| {
-        if p == min_point {
-            // Ensure `min_point` appears first in the `sorted_points` list.
-            f32::MIN
-        } else {
-            let x_axis = Vec2::from_yx(0., 1.);
-            min_point.vec_to(p).normalized().dot(x_axis)
-        }
-    };
-
-    // Sort points by angle between `point - min_point` and X axis. When
-    // multiple points form the same angle, keep only one furthest from
-    // `min_point`.
-    let mut sorted_points: Vec<(PointF, f32)> = poly.iter().map(|&p| (p, angle(p))).collect();
-    sorted_points.sort_by(|(a_pt, a_angle), (b_pt, b_angle)| {
-        if a_angle == b_angle {
-            let a_dist = min_point.vec_to(*a_pt).length();
-            let b_dist = min_point.vec_to(*b_pt).length();
-            a_dist.total_cmp(&b_dist)
-        } else {
-            a_angle.total_cmp(b_angle)
-        }
-    });
-    sorted_points.dedup_by_key(|(a_point, _)| *a_point);
-
-    // Visit sorted points and keep the sequence that can be followed without
-    // making any clockwise turns.
-    for &(p, _) in sorted_points.iter() {
-        while hull.len() >= 2 {
-            let [prev2, prev] = [hull[hull.len() - 2], hull[hull.len() - 1]];
-            let ac = prev2.vec_to(p);
-            let bc = prev.vec_to(p);
-            let turn_dir = ac.cross_product_norm(bc);
-            if turn_dir > 0. {
-                // Last three points form a counter-clockwise turn.
-                break;
-            }
-            hull.pop();
-        }
-        hull.push(p);
-    }
+    // Chain from the highest point back to the lowest.
+    let start = hull.len();
+    scan(&mut hull, start, points.iter().rev());
+    // The last point is the first point of the first chain.
+    hull.pop();
 
     hull
 }
